@@ -2,6 +2,7 @@
 # Confirm a seeded change: (a) patch only -> baseline suite passes, (b) patch+demo -> demo fails, (c) demo only -> passes.
 # usage: seed_verify.sh <seeded-dir> <scratch-repo-worktree>
 d=$(realpath $1); w=$2
+[ -d $w ] || git -C /repo worktree add -q --detach $w HEAD
 cd $w || exit 2
 reset() { git checkout -q -- . && git clean -fdq -e target; }
 count() { grep -E "^test result" | awk '{p+=$4; f+=$6} END{print p" passed "f" failed"}'; }
